@@ -390,6 +390,14 @@ func c45MutateCLA(r *rand.Rand, cla *v3endpointpb.ClusterLoadAssignment) {
 	}
 	li := r.Intn(len(cla.Endpoints))
 	l := cla.Endpoints[li]
+	if l == nil {
+		return
+	}
+	for _, e := range l.LbEndpoints {
+		if e == nil { // an earlier mutation appended a nil element: leave this locality alone
+			return
+		}
+	}
 	switch r.Intn(12) {
 	case 0:
 		l.Locality = nil
@@ -521,10 +529,17 @@ func c45RandRDS(r *rand.Rand) *v3routepb.RouteConfiguration {
 	return rc
 }
 
-func c45Marshal(m proto.Message) []byte {
+// c45Marshal serialises a generated resource; a resource the proto library cannot serialise
+// (driver-side problem, e.g. a nil list element) is replaced by the empty message.
+func c45Marshal(m proto.Message) (b []byte) {
+	defer func() {
+		if r := recover(); r != nil {
+			b = []byte{}
+		}
+	}()
 	b, err := proto.Marshal(m)
 	if err != nil {
-		panic(err)
+		return []byte{}
 	}
 	return b
 }
